@@ -103,7 +103,7 @@ Definition read_with_processor (region:list byte) (start end_ full:N) (acc:St) :
   if (end_ <? start)%N then RPanic else                (* seek.end - seek.start.raw_offset() *)
   let to_read := (end_ - start)%N in
   let chunk := next_multiple_of BSgen.Consts.read_chunk (N.of_nat L) in
-  chunk_loop (S (N.to_nat (to_read / chunk))) chunk region start to_read full [] acc.
+  chunk_loop (S (N.to_nat (N.min (to_read / chunk) (len region / chunk + 1)))) chunk region start to_read full [] acc.
 End RWP.
 Arguments RDone {St} acc. Arguments RStopped {St} acc. Arguments RCorrupt {St} acc. Arguments RIo {St} acc. Arguments RPanic {St}.
 
